@@ -44,6 +44,7 @@ def mark_float(name, kmax):
     k = F.sym_int_var(name, 0, kmax)
     f = F.SFloat(F.Aff(0, {name: Fraction(1, 100)}), None, 0)
     f.err = f.mag * F.U
+    f.nearest = True
     return SInt(k), f
 
 
@@ -739,6 +740,7 @@ def _cc_chunk(args):
                 return 'unsat-path'
             return c.solver.model().eval(r.t, model_completion=True).as_long()
         return r
+    from pyvc.core import OutOfSubset, Abort, PathEnd
     for _ in range(n):
         which = rnd.choice(['ty', 'ty', 'qk', 'bg'])
         c = Ctx()
@@ -749,6 +751,19 @@ def _cc_chunk(args):
                 kind, pargs = ty._tyrvingTables[g][ev]
                 age = rnd.choice(ty_ages(kind, pargs))
                 k = rnd.randrange(0, ty_kmax(kind, pargs, age))
+                if rnd.random() < 0.5:
+                    k -= k % 10             # whole tenths and whole units: the number forms whose text looks hand-timed
+                # (0) the real function on the NUMBER forms of the mark against the table formula (a number is never a hand time)
+                forms = [k / 100] + ([k // 100] if k % 100 == 0 else [])
+                for mk_ in forms:
+                    try:
+                        real = ty.tyrving_score(g, age, ev, mk_)
+                    except Exception as e:
+                        real = 'raises %s' % type(e).__name__
+                    spec = J.tyrving_points(kind, pargs, age, k, False)
+                    if spec is not None and real != spec:
+                        errs.append(('ground', 'tyrving_score(%r, %r, %r, %r) = %r, the table formula gives %r' % (g, age, ev, mk_, real, spec),
+                                     ['tyrving', g, age, ev, mk_, False]))
                 got = value_of(c, fty(g, age, ev, const_mark(k)))
                 want = ty.tyrving_score(g, age, ev, k / 100)
                 what = ('tyrving_score', g, age, ev, k / 100)
@@ -778,6 +793,8 @@ def _cc_chunk(args):
                 errs.append('robustness side condition fails on a concrete mark: %r' % (what,))
             elif got != want:
                 errs.append('proxy run of %r gives %r, CPython gives %r' % (what, got, want))
+        except (OutOfSubset, Abort, PathEnd):
+            pass                # outside the encoding on this tree: nothing to cross-check
         except Exception as e:
             errs.append('proxy run of %r raised %s: %s' % (which, type(e).__name__, str(e)[:80]))
         finally:
@@ -806,7 +823,11 @@ def main(tier, seed):
         if isinstance(res, tuple) and res[0] == 'cc':
             ccn += res[1]
             for e in res[2]:
-                run.checker_error('encoder cross-check: ' + e)
+                if isinstance(e, tuple) and e[0] == 'ground':
+                    if not any(v['obligation'] == 'standin/number-forms-equal-the-table-formula' for v in run.violations):
+                        run.violation('standin/number-forms-equal-the-table-formula', dict(call=e[1], observed=e[1], input=e[2]), True)
+                else:
+                    run.checker_error('encoder cross-check: ' + e)
             continue
         if '_crash' in res:
             U.absorb(run, res)
